@@ -48,7 +48,13 @@ def run(run, h):
 def payment(run, h, pts, batch, rng, M, ready, op, prev_pair):
     amt = rng.choice([1, 0, -1, 2])
     ctx = rng.randbytes(4)
-    h.rng(rng.randrange(2 ** 31))
+    # every other payment: the customer's draws are all SHORT scalars (below 2^62) - legal randomness under which a blinding
+    # factor and its neighbours at word boundaries (factor + 2^63, + 2^64, + 2^32) are all word-sized values
+    short = rng.random() < 0.5
+    if short:
+        h.rng(rng.randrange(2 ** 31), [rng.randrange(1, 2 ** 62) for _ in range(89)])
+    else:
+        h.rng(rng.randrange(2 ** 31))
     t = h.call("ready_start", ready, amt, hx(ctx), M.cconfig)
     if t[0] != "ok":
         return None, None
@@ -62,7 +68,7 @@ def payment(run, h, pts, batch, rng, M, ready, op, prev_pair):
     pp = parse_pproof(proof_hex)
     lock, secret, index = unsc(pair[:64]), unsc(pair[64:128]), int(pair[128:130], 16)
     bf = unsc(revbf)
-    case0 = {"amount": amt, "lock": lock, "bf": bf}
+    case0 = {"amount": amt, "lock": lock, "bf": bf, "short_randomness": short}
     run.check_monitor("released_pair_is_preimage_of_old_lock", lock == stt["old"]["lock"] and canonical_lock(secret, index) == lock, case0)
     # wrong candidates, in random order
     h.rng(7)
@@ -70,6 +76,8 @@ def payment(run, h, pts, batch, rng, M, ready, op, prev_pair):
     cands = [("pair_of_other_channel", op["pair"], revbf), ("fresh_foreign_pair", foreign, revbf),
              ("right_pair_wrong_factor", pair, sc(bf + 1)), ("right_pair_other_factor", pair, op["revbf"]),
              ("pair_and_factor_of_other_channel", op["pair"], op["revbf"])]
+    for nm, d in (("plus_2^63", 2 ** 63), ("plus_2^64", 2 ** 64), ("plus_2^32", 2 ** 32), ("minus_1", Q - 1), ("plus_2^128", 2 ** 128)):
+        cands.append(("right_pair_factor_" + nm, pair, sc((bf + d) % Q)))
     if prev_pair:
         cands.append(("pair_of_earlier_payment", prev_pair[0], prev_pair[1]))
         cands.append(("earlier_pair_right_factor", prev_pair[0], revbf))
@@ -137,6 +145,20 @@ def pair_codec(run, h, batch, rng):
             run.check_monitor("decoded_pair_is_hash_lock", got == exp, dict(cc, impl=got))
             if i < 3 or run.tier == "thorough":
                 batch.add("r_revpair_decode %d %d %d" % (lk, sx, ix), lambda r, got=got, cc=cc: run.check_corr("corr.C05.revpair_decode", bool(r[0]) == got, dict(cc, model=r[:1])))
+    # secrets that need many retries of the index loop (10, 19, 27 and 38 non-canonical digests in a row)
+    for want, secret in LONG_INDEX_SECRETS:
+        h.begin()
+        h.rng(1, [secret])
+        pb = h.call("revpair_new")[0]
+        lock, sec, index = unsc(pb[:64]), unsc(pb[64:128]), int(pb[128:130], 16)
+        first = next(j for j in range(256) if canonical_lock(secret, j) is not None)
+        case = {"op": "revpair_new", "kind": "long_index_search", "secret": secret, "expected_index": first, "script": h.end()}
+        run.case(case)
+        run.count("revpair_new long index search")
+        run.check_monitor("generated_pair_is_hash_lock", first == want and sec == secret and index == first and canonical_lock(secret, index) == lock,
+                          dict(case, impl=[lock, sec, index]))
+        run.check_monitor("decoded_pair_is_hash_lock", h.call("decode", "RevocationPair", pb) == ["ok", pb], dict(case, what="the generated pair decodes"))
+        batch.add("r_revpair_new %d" % secret, lambda r, case=case, e=[1, lock, sec, index]: run.check_corr("corr.C05.revpair_new", r == e, dict(case, model=r)))
     # a secret whose digest (index 0) is not a canonical scalar; any lock must be refused
     s = next(x for x in (rand_nz(rng) for _ in range(1000)) if canonical_lock(x, 0) is None)
     d = int.from_bytes(sha3(s.to_bytes(32, "little") + b"\x00"), "little")
